@@ -621,6 +621,12 @@ var vfGateScenarios = map[string]func(e *vfGateEnv) string{
 			return "second writer did not return from its write"
 		}
 		gw.Release()
+		// ... and a third one: whatever the second writer was told, it must have left the writer usable
+		// (a write slot never given back would park this one for good, and the closer with it)
+		id3, _, _ := e.start("prompt", false)
+		gw3 := e.sc.gates.Arm("x_wend", id3)
+		gw3.AwaitReached(2 * time.Second)
+		gw3.Release()
 		time.Sleep(5 * time.Millisecond)
 		gf.Release()
 		return ""
